@@ -41,7 +41,7 @@ class Project:
             if t["kind"] in gen.PROC_KINDS and not t.get("raw_run"):
                 needs_site = any(s[0] == "lib" for s in self.scripts.get(t["id"], {}).get("steps", []))
                 t["run"] = "python3 %s%s %s %s" % ("" if needs_site else "-S ", PROBE, self.scn_path, t["id"])
-        gen.write_project(self.root, tasks, disable_git=disable_git)
+        gen.write_project(self.root, tasks, disable_git=disable_git, reused_containers=bool(hostile.get("reused_containers")))
         if hostile.get("condout_symlink"):
             real_out = os.path.join(scratch_root, "storage vol", "deeper", name + "-cond-out")
             os.makedirs(real_out, exist_ok=True)
@@ -110,6 +110,9 @@ def hostile_choice(rng, p_root=0.25, p_link=0.2, p_outer=0.15, p_env=0.2, p_cpu=
     if rng.random() < p_cpu:
         h["one_cpu"] = True
         h["cpu_index"] = rng.randrange(64)
+    if rng.random() < 0.15:
+        # COND files written as sweeps: one args list / options dict / deps list per file, updated in place
+        h["reused_containers"] = True
     return h
 
 
